@@ -72,8 +72,8 @@ pub struct C14Checker {
     srcs: HashMap<String, (Option<String>, Option<String>)>,
     tainted: bool,
     /// which getter is called at the start of a round, BEFORE the expression is set again (0 overview, 1 braille, 2 speech):
-    /// one choice per trace (derived from its origin), so that the rule sets other than the speech rules are the first to
-    /// meet a repaired or switched-back configuration in a third of the runs each
+    /// the starting point is derived from the trace's origin and it rotates from round to round, so that every rule set is
+    /// the first to meet a broken, repaired or switched-back configuration in a third of the runs each
     pre_getter: usize,
     /// Language in force when the current expression was set (the as-is getter is only meaningful under the same Language)
     set_under: Option<String>,
@@ -167,6 +167,9 @@ impl C14Checker {
         self.pre.remove(tag);
         let neutral_is_current = s.cur_src.as_deref() == Some(NEUTRAL_EXPR);
         if let (Some(src0), true) = (s.cur_src.clone(), neutral_is_current || self.set_under.as_deref() == Some(language.as_str())) {
+            // rotate from round to round: the rule set that meets a broken file first and the one that is used first after
+            // the repair or the switch back are then different ones (they share tables and bookkeeping)
+            self.pre_getter = (self.pre_getter + 1) % 3;
             let op = [Op::Overview, Op::Braille(IdRef::Empty), Op::Speech][self.pre_getter].clone();
             let res = s.call(&op);
             self.check_o2(s, &op, &res);
